@@ -26,7 +26,7 @@ Spec == Init /\ [][Next]_vars
 
 Finished == phase = "run" /\ (m.status = "done" \/ m.n >= MaxSteps)
 EmitRun == Finished =>
-    PrintT(<<"RUN", ToJson([prog |-> m.prog, out |-> m.out, result |-> m.result, trig |-> m.trig, oom |-> m.oom,
+    PrintT(<<"RUN", ToJson([prog |-> SubSeq(m.prog, m.segs[2].lo, m.segs[2].hi), out |-> m.out, result |-> m.result, trig |-> m.trig, oom |-> m.oom,
                             done |-> m.status = "done", steps |-> m.n])>>)
 (* the reference semantics is total: it never gets stuck *)
 NotStuck == ~(phase = "run" /\ m.status = "done" /\ m.result.kind = "Stuck")
